@@ -30,6 +30,21 @@ def lib():
     return _L
 
 
+def is_seqof(k):
+    C = lib().C
+    return k in C._sequence_of_classes or any(b in C._sequence_of_classes for b in getattr(k, "__mro__", ()))
+
+
+def is_listof(k):
+    C = lib().C
+    return k in C._list_of_classes or any(b in C._list_of_classes for b in getattr(k, "__mro__", ()))
+
+
+def is_arrayof(k):
+    C = lib().C
+    return k in C._array_of_classes or any(b in C._array_of_classes for b in getattr(k, "__mro__", ()))
+
+
 ATOMIC_KINDS = ["Null", "Boolean", "Unsigned", "Integer", "Real", "Double", "OctetString", "CharacterString", "BitString",
                 "Enumerated", "Date", "Time", "ObjectIdentifier"]
 
@@ -61,8 +76,8 @@ def schema_of(klass, table=None):
     if table is None:
         table = {}
     name = type_name(klass)
-    if klass in C._sequence_of_classes or klass in C._list_of_classes or klass in C._array_of_classes:
-        kind = "seqof" if klass in C._sequence_of_classes else ("listof" if klass in C._list_of_classes else "arrayof")
+    if is_seqof(klass) or is_listof(klass) or is_arrayof(klass):
+        kind = "seqof" if is_seqof(klass) else ("listof" if is_listof(klass) else "arrayof")
         sub = schema_of(klass.subtype, table)
         name = "%s<%s>" % (kind, sub) + ("[%d]" % klass.fixed_length if getattr(klass, "fixed_length", None) is not None else "")
         if name not in table:
@@ -177,7 +192,7 @@ def _strategy(klass, depth, presence, nested):
 
     def strategy(k, d):       # everything below the top level is nested
         return _strategy(k, d, None, True)
-    if klass in C._sequence_of_classes or klass in C._list_of_classes or klass in C._array_of_classes:
+    if is_seqof(klass) or is_listof(klass) or is_arrayof(klass):
         fixed = getattr(klass, "fixed_length", None)
         sub = strategy(klass.subtype, depth - 1)
         if fixed is not None:
@@ -231,11 +246,11 @@ _by_full_name = {}
 def full_name(klass):
     L = lib()
     C = L.C
-    if klass in C._sequence_of_classes:
+    if is_seqof(klass):
         n = "SequenceOf(%s)" % full_name(klass.subtype)
-    elif klass in C._list_of_classes:
+    elif is_listof(klass):
         n = "ListOf(%s)" % full_name(klass.subtype)
-    elif klass in C._array_of_classes:
+    elif is_arrayof(klass):
         n = "ArrayOf(%s)" % full_name(klass.subtype)
     else:
         n = "%s:%s" % (klass.__module__, klass.__name__)
@@ -305,9 +320,9 @@ def atomic_from_lib(klass, x):
 def to_lib(klass, plain):
     L = lib()
     C = L.C
-    if klass in C._sequence_of_classes or klass in C._list_of_classes:
+    if is_seqof(klass) or is_listof(klass):
         return [to_lib(klass.subtype, p) for p in plain["list"]]
-    if klass in C._array_of_classes:
+    if is_arrayof(klass):
         return klass([to_lib(klass.subtype, p) for p in plain["list"]])
     if issubclass(klass, C.AnyAtomic):
         ak = getattr(L.P, plain["atomic"][0])
@@ -320,7 +335,7 @@ def to_lib(klass, plain):
         inner = to_lib(t, plain["any"][1])
         if atomic_kind(t) is not None:
             inner = t(inner)
-        elif t in C._sequence_of_classes or t in C._list_of_classes:
+        elif is_seqof(t) or is_listof(t):
             inner = t(inner)
         a.cast_in(inner)
         return a
@@ -354,7 +369,7 @@ def normalize(klass, plain):
     """canonical form of a plain value, so that 'sent' and 'decoded' can be compared with =="""
     L = lib()
     C = L.C
-    if klass in C._sequence_of_classes or klass in C._list_of_classes or klass in C._array_of_classes:
+    if is_seqof(klass) or is_listof(klass) or is_arrayof(klass):
         return {"list": [normalize(klass.subtype, p) for p in plain["list"]]}
     if issubclass(klass, C.AnyAtomic):
         ak = getattr(L.P, plain["atomic"][0])
@@ -392,11 +407,11 @@ def from_lib(klass, x, any_hint=None):
     """library value -> plain.  any_hint: for Any elements, the plain value that was sent (tells which type to cast out)"""
     L = lib()
     C = L.C
-    if klass in C._sequence_of_classes or klass in C._list_of_classes:
+    if is_seqof(klass) or is_listof(klass):
         items = x.value if hasattr(x, "value") and not isinstance(x, list) else x
         hints = (any_hint or {}).get("list") if isinstance(any_hint, dict) else None
         return {"list": [from_lib(klass.subtype, it, hints[i] if hints and i < len(hints) else None) for i, it in enumerate(items)]}
-    if klass in C._array_of_classes:
+    if is_arrayof(klass):
         items = list(x.value[1:]) if hasattr(x, "value") else list(x)
         hints = (any_hint or {}).get("list") if isinstance(any_hint, dict) else None
         return {"list": [from_lib(klass.subtype, it, hints[i] if hints and i < len(hints) else None) for i, it in enumerate(items)]}
